@@ -602,7 +602,7 @@ public:
             seed = sim::mix(sim::mix(o.seed, "C03-base"), (uint64_t)base);
         }
         sim::Rng g(seed);
-        bool late = false;
+        bool late = false, distYield = false;
         if (o.prop == "C04" && o.get("planner").empty() && index % 3 == 2)
             return genSolset(g);
         if (o.prop == "C17")
@@ -696,6 +696,7 @@ public:
             if (g.chance(0.3))
                 sch["terminate_after_ms"] = g.pick(std::vector<double>{0.0, 0.5, 5, 50, 400});
             plan["sched"] = sch;
+            distYield = true;
             if (planner == "pRRT" || planner == "pSBL")
                 plan["params"]["thread_count"] = fmt("%ld", g.range(2, 4));
             if (planner == "CForest")
@@ -808,6 +809,9 @@ public:
         // (drawn last) the resolution is set after the space information's first setup()
         if (late && g.chance(0.3))
             plan["world"]["late_resolution"] = true;
+        // (drawn last) scheduled cases: yield points inside distance computations (every n-th)
+        if (distYield)
+            plan["sched"]["dist_yield_every"] = g.pick(std::vector<long>{0, 0, 1, 3, 17, 101});
         return plan;
     }
 
@@ -1493,6 +1497,10 @@ sim::CaseResult PlanSim::run(const sim::Options &o, const Json &plan)
                         sim::finishCaseNow(res);
                     };
                     c.w->onValidityCall = [] { sim::sched::yield(); };
+                    world::ledger().distYieldEvery = plan["sched"].geti("dist_yield_every", 0);
+                    world::ledger().onDistanceYield = [] { sim::sched::yield(); };
+                    if (world::ledger().distYieldEvery > 0)
+                        res.faults["F4-yield-inside-nearest-neighbour-queries"]++;
                     ptc.bail = [&res, &c, &ptc, P, when, &validAtFire](bool budget) {
                         if (!budget)
                             res.violate(P + ".unbounded-return" + sfx(c), when + ": the termination condition was evaluated 10^4 more times after it became true");
@@ -1540,6 +1548,7 @@ sim::CaseResult PlanSim::run(const sim::Options &o, const Json &plan)
                         // never finish is reported as a deadlock
                         sim::sched::Stats sst = sim::sched::stop();
                         c.w->onValidityCall = nullptr;
+                        world::ledger().distYieldEvery = 0;
                         c.w->onBudgetExhausted = nullptr;
                         world::ledger().onBudgetExhausted = nullptr;
                         res.simSeconds += sst.simSeconds;
